@@ -715,6 +715,28 @@ fn judge(out: &mut Out, sc: &Scenario, line: &str, ans: &Value) -> BTreeMap<Stri
 
 // ------------------------------------------------------------------ scenarios
 
+/// the same payload sent by another aircraft: frame `f` re-addressed to `addr` (AA field of DF11/17/18 replaced,
+/// address overlay of the AP formats recomputed).  Two aircraft announcing the same call sign, squawk, altitude or
+/// register content are ordinary traffic (a flight number handed over, 7000/1200, the same level); independent random
+/// payloads never produce them, and a table that matches entries by VALUE shows only then (seed C12-h-m2).
+fn readdress(f: &[u8], addr: u32) -> Option<Vec<u8>> {
+    let mut g = f.to_vec();
+    if g.len() != 7 && g.len() != 14 {
+        return None;
+    }
+    match g[0] >> 3 {
+        11 | 17 | 18 => {
+            g[1] = (addr >> 16) as u8;
+            g[2] = (addr >> 8) as u8;
+            g[3] = addr as u8;
+            set_parity(&mut g, 0);
+        }
+        0 | 4 | 5 | 16 | 20 | 21 => set_parity(&mut g, addr),
+        _ => return None,
+    }
+    Some(g)
+}
+
 fn scenario(rng: &mut Rng, thorough: bool) -> (Scenario, Vec<String>) {
     let n_ac = 1 + rng.below(6) as usize;
     let base_lat = rng.f64() * 120.0 - 60.0;
@@ -750,12 +772,27 @@ fn scenario(rng: &mut Rng, thorough: bool) -> (Scenario, Vec<String>) {
     let ticks = rng.chance(1, 2); // fractional time stamps as multiples of 1/1024 s (exact in f64: op `snapp`) or as milliseconds
     let mut recs = vec![];
     let mut kinds = vec![];
+    // a third of the scenarios with several aircraft re-use payloads across aircraft
+    let share = acs.len() > 1 && rng.chance(1, 3);
+    let mut sent: Vec<(usize, Vec<u8>, String)> = vec![];
     // each scenario concentrates on a few kinds so that the same field is written repeatedly
     let focus: Vec<&str> = (0..3 + rng.below(6)).map(|_| pick_kind(rng)).collect();
     for _ in 0..len {
         let ai = rng.below(acs.len() as u64) as usize;
         let kind = if rng.chance(2, 3) { *rng.pick(&focus) } else { pick_kind(rng) };
-        let f = frame(rng, &mut acs[ai], kind);
+        let mut f = frame(rng, &mut acs[ai], kind);
+        let mut kind = kind.to_string();
+        if share && !sent.is_empty() && rng.chance(1, 3) {
+            // the payload of an earlier record of ANOTHER aircraft, under this aircraft's address
+            let (aj, g, k): &(usize, Vec<u8>, String) = rng.pick(&sent);
+            if *aj != ai {
+                if let Some(h) = readdress(g, acs[ai].addr) {
+                    f = h;
+                    kind = format!("shared-{k}");
+                }
+            }
+        }
+        sent.push((ai, f.clone(), kind.trim_start_matches("shared-").to_string()));
         // time: mostly forward by 0..2 s, sometimes equal, sometimes backwards, rarely negative
         match rng.below(20) {
             0 | 1 => {}
@@ -772,7 +809,7 @@ fn scenario(rng: &mut Rng, thorough: bool) -> (Scenario, Vec<String>) {
             format!("{:.3}", tt)
         };
         recs.push((text, hex(&f)));
-        kinds.push(kind.to_string());
+        kinds.push(kind);
     }
     (Scenario { reference, recs }, kinds)
 }
